@@ -2,6 +2,8 @@
 # Runs every claimed check (quick tier by default) on the current /repo tree; prints a summary.
 cd "$(dirname "$0")/.."
 TIER=${1:-quick}
+# replay files left over from runs on modified trees (seed matrix) are removed: what is committed comes from this run
+if [ -z "$(git -C /repo status --porcelain 2>/dev/null)" ]; then rm -f evidence/replay/*.json; fi
 fail=0
 for p in $(python3 -c "import json;print(' '.join(sorted(json.load(open('units/units.json'))['properties'])))"); do
   out=$(./check $p --tier $TIER 2>&1); rc=$?
